@@ -206,7 +206,7 @@ func (g *GhostDB) advanceClock(st *State) {
 	if old.S != "" {
 		st.assume(Ge(g.now, old))
 	}
-	st.assume(And(Ge(g.now, IntLit(0)), Le(g.now, Term{"9223372036854775807", SInt})))
+	st.assume(And(Ge(g.now, IntLit(0)), Le(g.now, IntLit(1<<61)))) // A-clock: tick times are below 2^61 ms
 	if g.now0.S == "" {
 		g.now0 = g.now
 	}
